@@ -78,8 +78,8 @@ def classify_term(ff: FuncFacts, e: ast.expr) -> List[Tuple[Term, bool]]:
 State = Tuple[FrozenSet[Term], FrozenSet[Term]]
 
 
-def command_terms(ff: FuncFacts, var: str) -> Dict[Node, Optional[State]]:
-    """Forward MUST/MAY dataflow for the OR-terms accumulated in local `var`; returns IN state per node."""
+def command_terms(ff: FuncFacts, var: str, want_out: bool = False) -> Dict[Node, Optional[State]]:
+    """Forward MUST/MAY dataflow for the OR-terms accumulated in local `var`; returns IN (or OUT) state per node."""
     cfg = ff.cfg
 
     def terms_of(e) -> Tuple[FrozenSet[Term], FrozenSet[Term]]:
@@ -112,7 +112,7 @@ def command_terms(ff: FuncFacts, var: str) -> Dict[Node, Optional[State]]:
         return st
 
     IN, OUT = forward(cfg, (frozenset(), frozenset()), transfer, lambda x, y: (x[0] & y[0], x[1] | y[1]))
-    return IN
+    return OUT if want_out else IN
 
 
 def terms_at(ff: FuncFacts, expr: ast.expr, at: ast.AST) -> State:
